@@ -100,6 +100,19 @@ theorem takenG_bytesOk : ∀ (q : List (List Nat)) (a : Nat), (∀ m ∈ q, Byte
 theorem map_toNats_ofNats' (l : List (List Nat)) (h : ∀ m ∈ l, BytesOk m) : (l.map ofNats).map toNats = l :=
   map_toNats_ofNats l h
 
+/-- the sender's slice `i` of `n` of a message, on `List Nat` -/
+def sliceOfG (msg : List Nat) (n i : Nat) : List Nat :=
+  (msg.drop (i * C.SLICE_SIZE)).take ((if i = n - 1 then msg.length else (i + 1) * C.SLICE_SIZE) - i * C.SLICE_SIZE)
+
+theorem toNats_sliceBytes_su (msg : List Nat) (hb : BytesOk msg) (n i : Nat) :
+    toNats (sliceBytes (ofNats msg) n i) = sliceOfG msg n i := by
+  unfold sliceBytes sliceOfG
+  simp only [ofNats_length]
+  show List.map UInt8.toNat _ = _
+  rw [List.map_take, List.map_drop]
+  have : List.map UInt8.toNat (ofNats msg) = msg := toNats_ofNats hb
+  rw [this]
+
 /-- the tie for an arbitrary well-formed GENERATED state -/
 theorem su_get_packets {ε : Type} (c : SendChannelUnreliable) (seq avail : Nat) (h : WfSU c seq) :
     (SendChannelUnreliable.get_packets_to_send c seq avail : Res ε _) =
@@ -259,6 +272,30 @@ theorem send_unrel_budget {ε : Type} (c : SendChannelUnreliable) (seq avail : N
       BytesOk m := fun m hm => hok m (List.mem_filter.1 hm).1
   rw [← List.map_map]
   exact map_toNats_ofNats _ hok'
+
+/-- **C14, a large message is sent whole.**  Every message the budget scan takes that is longer than `SLICE_SIZE` appears
+    in the returned packets as the COMPLETE set of its `n = ⌈len/SLICE_SIZE⌉` slices — one `UnreliableSlice` packet per
+    index `j < n`, all with the same sliced-message id, slice `j` carrying bytes `j*SLICE_SIZE ..` of the message. -/
+theorem send_unrel_large_sent_whole {ε : Type} (c : SendChannelUnreliable) (seq avail : Nat) (h : WfSU c seq) :
+    ∃ c' seq' avail' ps, (SendChannelUnreliable.get_packets_to_send c seq avail : Res ε _) = .ok (c', seq', avail', ps) ∧
+      ∀ m ∈ takenG c.unreliable_messages avail, C.SLICE_SIZE < m.length →
+        ∃ id, ∀ j, j < divCeil m.length C.SLICE_SIZE →
+          ∃ sq, Src.renet.packet.Packet.UnreliableSlice sq c.channel_id
+            ⟨id, j, divCeil m.length C.SLICE_SIZE, sliceOfG m (divCeil m.length C.SLICE_SIZE) j⟩ ∈ ps := by
+  obtain ⟨s', ps, seq', avail', hG, hgen⟩ := su_get_packets' (ε := ε) c seq avail h
+  refine ⟨_, _, _, _, hgen, ?_⟩
+  obtain ⟨_, _, hd3⟩ := C14.unreliable_dropped_whole hG
+  intro m hm hlen
+  have hmb : BytesOk m := takenG_bytesOk c.unreliable_messages avail h.1 m hm
+  have hq : (absSU c).queue = c.unreliable_messages.map ofNats := rfl
+  have hm' : ofNats m ∈ unrelTaken (absSU c).queue avail := by
+    rw [hq, unrelTaken_ofNats]; exact List.mem_map_of_mem hm
+  obtain ⟨id, hid⟩ := hd3 (ofNats m) hm' (by rw [ofNats_length]; exact hlen)
+  refine ⟨id, fun j hj => ?_⟩
+  obtain ⟨sq, hsq⟩ := hid j (by rw [ofNats_length]; exact hj)
+  refine ⟨sq, ?_⟩
+  have := List.mem_map_of_mem (f := reprPacket) hsq
+  simpa [reprPacket, reprSlice, ofNats_length, toNats_sliceBytes_su m hmb, absSU] using this
 
 /-! ### examples (evaluated on the generated text) -/
 
